@@ -334,7 +334,21 @@ def r_record_layout(ctx):
         ldef = [d for d in ast.walk(init.node) if isinstance(d, ast.Assign) and unparse(d.targets[0]) == lname]
         stores = [d for d in ast.walk(init.node) if isinstance(d, ast.Assign) and P.self_attr(d.targets[0], init.self_name) == jp['offset_attr'] and unparse(d.value) == lname
                   and d.lineno > loops[0].lineno]
-        okw = bool(rdef) and 'Offset' in unparse(rdef[-1].value) and bool(ldef) and unparse(ldef[0].value).isupper() and bool(stores)
+        hdr = jp['publish_const']
+
+        def reads_header(e):
+            # the published end offset: read(<header offset constant>, ..) directly or through a method of the journal
+            for c in ast.walk(e):
+                if not isinstance(c, ast.Call):
+                    continue
+                if isinstance(c.func, ast.Attribute) and c.func.attr == 'read' and c.args and isinstance(c.args[0], ast.Name) and c.args[0].id == hdr:
+                    return True
+                for t in P.resolve_call(init, c).targets:
+                    if t.owner_cls is fj and t is not init and any(isinstance(x, ast.Call) and isinstance(x.func, ast.Attribute) and x.func.attr == 'read' and x.args
+                                                                  and isinstance(x.args[0], ast.Name) and x.args[0].id == hdr for x in ast.walk(t.node)):
+                        return True
+            return False
+        okw = bool(rdef) and reads_header(rdef[-1].value) and bool(ldef) and unparse(ldef[0].value).isupper() and bool(stores)
     if okw:
         n_checked += 1
         ctx.ok(inst, init.loc(loops[0]), '`%s`; running end offset stored after the loop' % unparse(loops[0].test))
@@ -704,8 +718,9 @@ def r_restart_keeps_journal(ctx):
     loader = loader_func(ctx)
     ex = U.explorer(ctx, loader)
     cfg = ex.cfg
-    ctx.require('clearJournal' in loader.params, 'loader lost its clearJournal parameter')
-    init = [ex.tb.literal(U.parse_expr('clearJournal'), False)]
+    ctx.require(len(loader.params) == 2, 'loader lost its clear-journal parameter')
+    cj = loader.params[1]
+    init = [ex.tb.literal(U.parse_expr(cj), False)]
     res = ex.run(init=frozenset(init))
     logsym = 'A:' + R.log
     clears = [(f, c) for f, c, via in log_op_sites(ctx, 'clear') if f is loader]
